@@ -287,7 +287,8 @@ type world struct {
 	freshAfterFail bool
 
 	// shadow flags used only to classify a monitor failure (never to decide one)
-	failedOps        []string
+	failedOps        []string // failed writes in the current process
+	everFailed       []string // ... in the whole trial (a later graceful stop persists their damage)
 	crashedOps       []string
 	cacheWarm        bool
 	crossedAfterWarm bool
@@ -410,6 +411,7 @@ func (w *world) faulted(name string, mode faultkv.Mode, k int, fn func() error) 
 	case errors.Is(err, faultkv.ErrInjected):
 		r.kind = "failed"
 		w.failedOps = append(w.failedOps, name)
+		w.everFailed = append(w.everFailed, name)
 	case err != nil:
 		r.kind = "error"
 	default:
